@@ -51,6 +51,11 @@ pub fn c11(ctx: &mut Ctx) {
         l.headers.push(("x-amz-meta-dup".into(), b"two  words".to_vec()));
         l.signed.push("x-amz-meta-dup".into());
         l.headers.push(("X-Unsigned".into(), b"u1".to_vec()));
+        // signed names of which one is a proper prefix of the other, continued by a character that sorts
+        // below ':' — names are sorted, not "name:value" lines
+        let longer = *rng.pick(&["X-Amz-Meta-Dup-1", "x-amz-meta-dup.x", "X-Amz-Meta-Dup0", "x-amz-meta-dup-"]);
+        l.headers.push((longer.into(), b"zed".to_vec()));
+        l.signed.push(longer.to_ascii_lowercase());
         let now = now_for(&l, 0);
         let s = sign_and_spell(&l, &mut rng, &Spelling::plain(), now);
         jobs.push(job(s.case.clone(), Expect::Accept, "c11-base", "C11: reference-signed request refused"));
@@ -228,7 +233,7 @@ fn c12_pieces(ctx: &mut Ctx) {
         tris.push(Tri { op: "CTYPE", line, imp: Some(imp_out), spec: Some(spec), class: "c12-content-type".into(), clause: "content type / charset extraction differs from the reference reading (first Content-Type header, text before ';' trimmed, first charset= option)", show: format!("{:?}", hs.iter().map(|(n, v)| format!("{}: {}", n, show(v))).collect::<Vec<_>>()) });
     }
     // UTF-8 validity: every 1- and 2-byte string, directed 3- and 4-byte strings, random longer ones
-    let mut utf8 = |b: Vec<u8>, tris: &mut Vec<Tri>| {
+    let utf8 = |b: Vec<u8>, tris: &mut Vec<Tri>| {
         let v = if rs::utf8_valid(&b) { "1" } else { "0" };
         tris.push(Tri { op: "UTF8", line: format!("UTF8 {}", hx(&b)), imp: None, spec: Some(v.to_string()), class: "c12-utf8".into(), clause: "", show: show(&b) });
     };
@@ -584,6 +589,63 @@ pub fn c13(ctx: &mut Ctx) {
         let done = run_jobs(ctx, "VALIDATE", jobs);
         check_status(ctx, done);
     }
+    // (a2) repeated Authorization headers: the algorithm check (rule 6a) is made on the first one
+    {
+        let mut jobs = Vec::new();
+        for (k, first) in [&b"Basic dXNlcjpwYXNz"[..], b"Bearer abc", b"", b" ", b"AWS4-HMAC-SHA1 Credential=a/b/c/d/aws4_request, SignedHeaders=host, Signature=00", b"aws4-hmac-sha256 Credential=x"].iter().enumerate() {
+            for defect in [0u32, 1 << 13, 1 << 11, 1 << 9] {
+                let (mut c, _, _) = build_defective(&Carrier::Header, defect, &mut rng);
+                let at = c.headers.iter().position(|(n, _)| n.eq_ignore_ascii_case("authorization")).unwrap();
+                c.headers.insert(at, (if k % 2 == 0 { "Authorization" } else { "authorization" }.to_string(), first.to_vec()));
+                let mut j = job(c, Expect::Refuse(Some("IncompleteSignature")), "c13-first-authorization-scheme", "C13: with several Authorization headers the algorithm check is made on the first; a non-SigV4 first header is an IncompleteSignature (400) whatever follows");
+                j.expect_calls = Some(0);
+                jobs.push(j);
+            }
+        }
+        // (a3) the not-yet-valid check (rule 11) at sub-second resolution, alone and in front of later defects
+        for (k, frac) in [1i128, 500_000_000, 999_999_999, 250_000_000, 0].iter().enumerate() {
+            for carrier in [Carrier::Header, Carrier::Query] {
+                for later in [0u32, 1 << 10, 1 << 11, 1 << 13] {
+                    let t0: i128 = 1_440_938_160_000_000_000;
+                    let mut l = simple_logical(carrier.clone(), t0 + 900_000_000_000 + frac);
+                    l.time_style = (if k % 2 == 0 { 0 } else { 3600 }, (k * 5 % 32) as u8, 9);
+                    let now = now_for(&simple_logical(carrier.clone(), t0), 0);
+                    let s = sign_and_spell(&l, &mut rng, &Spelling::plain(), now);
+                    let mut c = s.case.clone();
+                    if later & (1 << 13) != 0 {
+                        let bad: String = s.signature.chars().rev().collect();
+                        set_signature(&mut c, &s.signature, &bad);
+                    }
+                    if later & (1 << 11) != 0 {
+                        c.region = "eu-central-9".into();
+                    }
+                    if later & (1 << 10) != 0 {
+                        let six = format!("{}/extra", s.credential);
+                        for (n, v) in c.headers.iter_mut() {
+                            if n.eq_ignore_ascii_case("authorization") {
+                                *v = String::from_utf8_lossy(v).replace(&s.credential, &six).into_bytes();
+                            }
+                        }
+                        c.uri = c.uri.replace(&String::from_utf8(rs::encode(s.credential.as_bytes())).unwrap(), &String::from_utf8(rs::encode(six.as_bytes())).unwrap());
+                    }
+                    let expect = if *frac > 0 {
+                        Some("SignatureDoesNotMatch") // not yet current, whatever comes later
+                    } else if later & (1 << 10) != 0 {
+                        Some("IncompleteSignature")
+                    } else if later != 0 {
+                        Some("SignatureDoesNotMatch")
+                    } else {
+                        None
+                    };
+                    let mut j = job(c, match expect { Some(k) => Expect::Refuse(Some(k)), None => Expect::Accept }, "c13-subsecond-edge", "C13: a timestamp a fraction of a second beyond now + 15 min is 'not yet current' (rule 11) before credential arity, scope and signature are looked at; exactly on the bound it is inside");
+                    j.expect_calls = Some(if *frac > 0 || later & ((1 << 10) | (1 << 11)) != 0 { 0 } else { 1 });
+                    jobs.push(j);
+                }
+            }
+        }
+        let done = run_jobs(ctx, "VALIDATE", jobs);
+        check_status(ctx, done);
+    }
     // (b) defect injection
     let mut masks: Vec<u32> = Vec::new();
     if ctx.thorough {
@@ -763,6 +825,44 @@ pub fn c14(ctx: &mut Ctx) {
         jb.expect_calls = Some(0);
         jobs.push(jb);
     }
+    // signed-header requirements declared in any letter case, through each way of building a requirements
+    // container: a request with an unsigned header they cover must not reach the provider
+    {
+        let decls: [(&[&str], &[&str], &[&str]); 8] = [
+            (&[], &[], &["X-Amz-"]), (&[], &[], &["x-amz-"]), (&[], &[], &["X-AMZ-TARGET"]), (&[], &["X-Amz-Target"], &[]),
+            (&[], &["x-amz-target"], &[]), (&["X-Amz-Target"], &[], &[]), (&["x-amz-TARGET"], &[], &["My-"]), (&[], &[], &["", "Z-"]),
+        ];
+        for (k, (a, i, p)) in decls.iter().enumerate() {
+            for mode in 0..3 {
+                for carrier in [Carrier::Header, Carrier::Query] {
+                    for signed in [false, true] {
+                        let mut l = simple_logical(carrier.clone(), 1_440_938_160_000_000_000);
+                        l.headers.push((if k % 2 == 0 { "X-Amz-Target" } else { "x-amz-target" }.into(), b"Svc.Op".to_vec()));
+                        if signed {
+                            l.signed.push("x-amz-target".into());
+                        }
+                        let now = now_for(&l, 0);
+                        let s = sign_and_spell(&l, &mut rng, &Spelling::plain(), now);
+                        let mut c = s.case;
+                        c.always = a.iter().map(|x| x.to_string()).collect();
+                        c.ifreq = i.iter().map(|x| x.to_string()).collect();
+                        c.prefixes = p.iter().map(|x| x.to_string()).collect();
+                        c.vec_reqs = mode > 0;
+                        if mode == 2 {
+                            c.req_ops = vec![('N', String::new())];
+                        }
+                        c.pending_ready = (k % 3) as u32;
+                        // the empty prefix covers every header, the (unsignable) Authorization header included
+                        let met = signed && !(p.contains(&"") && carrier == Carrier::Header);
+                        let expect = if met { Expect::Accept } else { Expect::Refuse(Some("SignatureDoesNotMatch")) };
+                        let mut jb = job(c, expect.clone(), if met { "c14-requirements-met" } else { "c14-defective" }, "C14: a request that leaves a required header unsigned (requirement declared in any letter case, container built in any way) reached the key provider");
+                        jb.expect_calls = match expect { Expect::Accept => Some(1), Expect::Refuse(_) => Some(0), Expect::Any => None };
+                        jobs.push(jb);
+                    }
+                }
+            }
+        }
+    }
     // every kind of pre-provider defect (and pairs of them), both carriers: the provider must stay untouched
     for carrier in [Carrier::Header, Carrier::Query] {
         for i in 0..12 {
@@ -877,6 +977,22 @@ pub fn c15(ctx: &mut Ctx) {
                 l.body.clear();
             }
         }
+        if i % 5 == 1 {
+            // S3 mode with folding: the path that was authenticated keeps its empty and dot segments, and so
+            // must the returned URI
+            l.fold = true;
+            l.s3 = true;
+            if l.form.is_none() {
+                l.form = Some(vec![(b"a".to_vec(), b"b c".to_vec())]);
+                l.content_type = Some("application/x-www-form-urlencoded".into());
+                l.body.clear();
+            }
+            l.segments = vec![b"examplebucket".to_vec(), b"dir".to_vec()];
+            for _ in 0..1 + rng.below(3) {
+                l.segments.push(rng.pick(&[&b""[..], b".", b"..", b"x y"]).to_vec());
+            }
+            l.segments.push(b"key.txt".to_vec());
+        }
         let now = now_for(&l, 0);
         let sp = if i % 2 == 0 { Spelling::plain() } else { Spelling::random(&mut rng) };
         let s = sign_and_spell(&l, &mut rng, &sp, now);
@@ -968,6 +1084,13 @@ fn check_passthrough(ctx: &mut Ctx, done: Vec<Done>) {
             if !r.body.is_empty() {
                 bad.push("folded body not empty".into());
             }
+            // the returned path denotes the path that was authenticated: same canonical form in the case's mode
+            let ru: Option<http::Uri> = r.uri.parse().ok();
+            let rp = ru.as_ref().map(|u| u.path().to_string()).unwrap_or_default();
+            let (got_p, want_p) = (rs::ref_path(rp.as_bytes(), c.s3, true), rs::ref_path(req.uri().path().as_bytes(), c.s3, true));
+            if got_p != want_p {
+                bad.push(format!("folded path {} is not the authenticated path {}", show(rp.as_bytes()), show(req.uri().path().as_bytes())));
+            }
             // the returned query carries exactly URL + body parameters (minus the signature parameter)
             let q = r.uri.split_once('?').map(|x| x.1).unwrap_or("");
             let mut got = rs::ref_query_pairs(q.as_bytes()).unwrap_or_default();
@@ -1024,7 +1147,7 @@ pub fn c08(ctx: &mut Ctx) {
         jobs.push(job(s.case, Expect::Any, "c08-long-uri", clause));
     }
     // (b) every charset label the decoder library knows, plus junk, with arbitrary bodies
-    let labels = ["utf-8", "utf8", "unicode-1-1-utf-8", "ibm866", "iso-8859-2", "iso-8859-8-i", "windows-1252", "latin1", "ascii", "macintosh", "koi8-r", "gbk", "gb18030", "hz-gb-2312", "big5", "euc-jp", "iso-2022-jp", "shift_jis", "euc-kr", "iso-2022-kr", "utf-16be", "utf-16le", "utf-16", "x-user-defined", "replacement", "bogus", "", " utf-8 ", "UTF-8\n", "\"utf-8\"", "utf-8;", "x\u{e9}"];
+    let labels = ["utf-8", "utf8", "unicode-1-1-utf-8", "ibm866", "iso-8859-2", "iso-8859-8-i", "windows-1252", "latin1", "ascii", "macintosh", "koi8-r", "gbk", "gb18030", "hz-gb-2312", "big5", "euc-jp", "iso-2022-jp", "shift_jis", "euc-kr", "iso-2022-kr", "utf-16be", "utf-16le", "utf-16", "x-user-defined", "replacement", "bogus", "", " utf-8 ", "UTF-8\n", "\"utf-8\"", "utf-8;", "x\u{e9}", "\"", "\"\"", "\"utf-8", "utf-8\"", "'", "'utf-8'", "\\", "=", "utf-8; charset=\"", "\u{a0}utf-8"];
     for lab in labels {
         for _ in 0..ctx.n(6, 60) {
             let mut l = simple_logical(Carrier::Header, 1_440_938_160_000_000_000);
@@ -1040,7 +1163,9 @@ pub fn c08(ctx: &mut Ctx) {
     }
     run_jobs(ctx, "VALIDATE", std::mem::take(&mut jobs));
     // dates that match the pattern but not the calendar, through the whole entry point, both carriers
-    for (i, date) in ["20150230T123600Z", "20150431T123600Z", "19000229T123600Z", "2015-02-29T12:36:00Z", "20150830T123660Z", "20150830T240000Z", "20151301T000000Z", "20150800T000000Z", "00000101T000000Z", "99991231T235959.999999999-2359"].iter().enumerate() {
+    for (i, date) in ["20150230T123600Z", "20150431T123600Z", "19000229T123600Z", "2015-02-29T12:36:00Z", "20150830T123660Z", "20150830T240000Z", "20151301T000000Z", "20150800T000000Z", "00000101T000000Z", "99991231T235959.999999999-2359",
+        // decimal digits outside ASCII (they arrive percent-encoded on the query carrier, as raw bytes in a header)
+        "\u{ff12}0150830T123600Z", "\u{662}0150830T123600Z", "2015083\u{ff10}T123600Z", "20150830T12360\u{ff10}Z", "20150830T123600+0\u{ff10}00", "2015\u{966}830T123600.\u{ff15}Z"].iter().enumerate() {
         for carrier in [Carrier::Header, Carrier::Query] {
             let l = simple_logical(carrier, 1_440_938_160_000_000_000);
             let now = now_for(&l, 0);
